@@ -520,6 +520,88 @@ fn invert_near_special_f64(d: &mut Draw) -> Outcome {
     pass(if base == 1 { "near-diagonal" } else { "near-rotation" }, true)
 }
 
+
+/// native floats, ill-conditioned but exact: direct sums of the unimodular blocks [[a, a-1], [a+1, a]] (a up to the square root of the largest exactly representable integer)
+/// and ones, rows and columns permuted. Every product the cofactor expansions form is an integer below 2^53, so the
+/// determinant (+-1) and the integer inverse are exact in floating point - although the cofactor terms cancel to one part
+/// in 2^50. Nothing here may be mistaken for "zero up to rounding".
+macro_rules! illconditioned_native {
+    ($fname:ident, $F:ty, $amax2:expr, $amax4:expr) => {
+        fn $fname(d: &mut Draw) -> Outcome {
+            type F = $F;
+            let n = d.int(2, 4) as usize;
+            let nblocks = if n == 4 && d.bool() { 2 } else { 1 };
+            let amax: i64 = if nblocks == 2 { $amax4 } else { $amax2 };
+            let mut m = [[0i64; 4]; 4];
+            for i in 0..n {
+                m[i][i] = 1;
+            }
+            for b in 0..nblocks {
+                let a = d.int(amax / 64, amax);
+                let (i, j) = (2 * b, 2 * b + 1);
+                m[i][i] = a;
+                m[i][j] = a + 1;
+                m[j][i] = a - 1;
+                m[j][j] = a;
+            }
+            // random row and column permutations
+            let mut rp: Vec<usize> = (0..n).collect();
+            let mut cp: Vec<usize> = (0..n).collect();
+            for i in (1..n).rev() {
+                rp.swap(i, d.below(i + 1));
+                cp.swap(i, d.below(i + 1));
+            }
+            let sign = |p: &Vec<usize>| -> i64 {
+                let mut s = 1;
+                for i in 0..p.len() {
+                    for j in 0..i {
+                        if p[j] > p[i] {
+                            s = -s;
+                        }
+                    }
+                }
+                s
+            };
+            let want_det = (sign(&rp) * sign(&cp)) as F;
+            let t = RM::<F>::from_fn(n, |c, r| m[cp[c]][rp[r]] as F);
+            d.note("M", &t);
+            macro_rules! go {
+                ($mk:ident) => {{
+                    let mm = $mk(&t);
+                    let det = mm.determinant();
+                    ensure!(det == want_det, "illconditioned-determinant", "{}x{} integer matrix with determinant {}: determinant() = {:e}", n, n, want_det, det);
+                    ensure!(mm.transpose().determinant() == want_det, "illconditioned-determinant-transpose", "determinant of the transpose = {:e}, expected {}", mm.transpose().determinant(), want_det);
+                    ensure!(mm.is_invertible(), "illconditioned-is_invertible", "is_invertible() is false for a matrix of determinant {}", want_det);
+                    match mm.invert() {
+                        None => return Outcome::Fail { sig: "illconditioned-no-inverse", msg: format!("{}x{} integer matrix with determinant {} has no inverse", n, n, want_det) },
+                        Some(ni) => {
+                            let e1 = (mm * ni).rm().max_abs_diff(&RM::ident(n));
+                            let e2 = (ni * mm).rm().max_abs_diff(&RM::ident(n));
+                            ensure!(e1 == 0.0 && e2 == 0.0, "illconditioned-inverse", "M*invert(M) - I = {:e}, invert(M)*M - I = {:e} (every product involved is an exact integer)", e1, e2);
+                        }
+                    }
+                }};
+            }
+            match n {
+                2 => go!(mk_m2),
+                3 => {
+                    let mm = mk_m3(&t);
+                    ensure!(Transform::<Point3<F>>::inverse_transform(&mm).is_some() && Transform::<Point2<F>>::inverse_transform(&mm).is_some(), "illconditioned-inverse_transform", "Matrix3::inverse_transform is None for a matrix of determinant +-1");
+                    go!(mk_m3)
+                }
+                _ => {
+                    let mm = mk_m4(&t);
+                    ensure!(Transform::<Point3<F>>::inverse_transform(&mm).is_some(), "illconditioned-inverse_transform", "Matrix4::inverse_transform is None for a matrix of determinant +-1");
+                    go!(mk_m4)
+                }
+            }
+            pass(match n { 2 => "2x2", 3 => "3x3", _ => "4x4" }, true)
+        }
+    };
+}
+illconditioned_native!(illconditioned_native_f64, f64, 94_906_265, 8191);
+illconditioned_native!(illconditioned_native_f32, f32, 4095, 63);
+
 const RULE_INV: &str = "dense invertible (all entries and all first minors non-zero), or one of the constructed singular / low-rank / tiny-determinant classes";
 const RULE_D: &str = "all entries of A and B non-zero and det A != 0";
 const RULE_T: &str = "all entries non-zero, neither operand symmetric";
@@ -562,6 +644,9 @@ pub fn property() -> Property {
     const SNG: &[(&str, u32)] = &[("2x2-rows", 100), ("2x2-columns", 100), ("3x3", 200)];
     s.push(sc!("singular_native-f64", "f64", singular_native_f64, 4000, 300_000, 48, SNG, "every generated matrix (one column an exact power-of-two multiple of another; generic inexact entries)", false));
     s.push(sc!("singular_native-f32", "f32", singular_native_f32, 4000, 300_000, 48, SNG, "every generated matrix (one column an exact power-of-two multiple of another; generic inexact entries)", false));
+    const ILL: &[(&str, u32)] = &[("2x2", 200), ("3x3", 200), ("4x4", 200)];
+    s.push(sc!("illconditioned_native-f64", "f64", illconditioned_native_f64, 4000, 300_000, 32, ILL, "every generated matrix (permuted direct sums of [[a,a-1],[a+1,a]] and ones)", false));
+    s.push(sc!("illconditioned_native-f32", "f32", illconditioned_native_f32, 4000, 300_000, 32, ILL, "every generated matrix (permuted direct sums of [[a,a-1],[a+1,a]] and ones)", false));
     s.push(sc!("invert_near_special-f64", "f64", invert_near_special_f64, 6000, 400_000, 80, &[("near-rotation", 300), ("near-diagonal", 100)], "every generated matrix (a rotation or diagonal matrix with 1-3 entries or the overall scale off by 1e-14..1e-4)", false));
     Property {
         id: "C02",
